@@ -89,7 +89,6 @@ theorem tf_sync {w : World} {P0 : List Op} {s : St} {d : Dec} (h : Here w P0 s d
   -- the reservation
   have hrsv : Opus.CeltSyms.tfRsv (cfgD cfg) isT d = encTfRsv cfg isT s := by
     unfold Opus.CeltSyms.tfRsv encTfRsv
-    simp only [cfgD]
     rw [ht, hsd, hst]
     have hb := hB s d h (hxs.trans hx) (((if isT ≠ 0 then 2 else 4 : Nat) : Int) + 1) (by omega) (by omega)
     by_cases hc : cfg.LM > 0 ∧ tell s.e + ((if isT ≠ 0 then 2 else 4 : Nat) : Int) + 1 ≤ ((size1 * 8 : Nat) : Int)
@@ -133,7 +132,7 @@ theorem tf_sync {w : World} {P0 : List Op} {s : St} {d : Dec} (h : Here w P0 s d
   · simp only [hc, and_self, if_true, ne_eq, not_false_eq_true] at hp ⊢
     obtain ⟨e1, e2⟩ := l3.pop.emit_bit (if L.2.2.pop.1 ≠ 0 then 1 else 0) 1 (bit_le_one _) hp
     rw [e1]
-    exact ⟨trivial, trivial, e2⟩
+    exact ⟨rfl, rfl, e2⟩
   · simp only [hc, if_false] at hp ⊢
     exact ⟨trivial, trivial, l3⟩
 
